@@ -37,6 +37,7 @@ def corruption_lines(kind, rng_word):
         "ifdef-no-label": ([".ifdef", ".db 1", ".endif"], True, False),
         "if-no-expression": ([".if", ".db 1", ".endif"], True, False),
         "if-bad-expression": ([".if 1 +", ".db 1", ".endif"], True, False),
+        "if-stray-close-paren": ([".define MODEL_%s 2" % w, ".if MODEL_%s == 2 )" % w, ".db 1", ".endif"], True, False),
         "unterminated-if": ([".if 1", ".db 1"], True, True),
         "unterminated-ifdef": ([".ifndef nope_%s" % w, ".db 1"], True, True),
         "stray-else": ([".else"], True, True),
@@ -81,7 +82,7 @@ def corruption_lines(kind, rng_word):
 KINDS = ["unknown-mnemonic", "undefined-symbol", "undefined-symbol-dw", "out-of-range-db", "out-of-range-dw",
          "org-no-operand", "set-no-equals", "unknown-directive", "db-two-values-no-comma", "duplicate-label",
          "missing-include", "missing-binfile", "unterminated-quote", "ifdef-no-label", "if-no-expression",
-         "if-bad-expression", "unterminated-if", "unterminated-ifdef", "stray-else", "stray-endif", "stray-endr",
+         "if-bad-expression", "if-stray-close-paren", "unterminated-if", "unterminated-ifdef", "stray-else", "stray-endif", "stray-endr",
          "stray-endm", "unterminated-macro", "unterminated-comment", "unterminated-repeat",
          "define-self", "define-mutual", "define-chain-129", "define-chain-stmt", "macro-recursive",
          "div-zero", "div-zero-after-add", "div-zero-before-add", "mod-zero-after-mul", "div-zero-in-parens", "div-zero-via-equ",
@@ -93,8 +94,8 @@ EXTREMES = [-1, -129, -32769, 5, 7, 0x81, 255, 256, 0x1001, 65535, 65536, 0x1234
 PLACES = ["top", "in-macro", "in-include", "in-repeat", "in-if", "in-nested-if", "in-else", "in-ifdef", "in-deep-if"]
 STRUCT_PLACES = ["top", "in-include", "at-end"]
 
-DIRECTED = [(k, p) for k in KINDS[:43] for p in PLACES if not corruption_lines(k, "x")[2]] + \
-           [(k, p) for k in KINDS[:43] for p in STRUCT_PLACES if corruption_lines(k, "x")[2]]
+DIRECTED = [(k, p) for k in KINDS[:44] for p in PLACES if not corruption_lines(k, "x")[2]] + \
+           [(k, p) for k in KINDS[:44] for p in STRUCT_PLACES if corruption_lines(k, "x")[2]]
 
 ERR_LINE = re.compile(r"Error")
 FAIL_DIAG = re.compile(r"Error|Cannot open|Couldn't open|Unknown |Failed|bailing|not supported|No input|Usage")
@@ -168,6 +169,8 @@ class C12(Engine):
     # ------------------------------------------------------------------ planning
     def plan(self, rng, index):
         prog = progs.gen_program(rng, nstmts=rng.range(2, 10), instr_share=3)
+        if rng.chance(1, 5) and prog["cpu"] != "webasm":
+            prog["stmts"].append([".end"])       # nothing follows: whatever was wrong before it is still wrong
         ops = []
         w = "%x" % rng.below(1 << 20)
         typ = rng.pick(TYPES)
